@@ -76,13 +76,12 @@ impl<'i> Sink<'i> {
             let _ = write!(self.text, "{}=[{}]; ", label, crate::fw::hex(s));
         }
     }
-    pub fn res<T, E: Debug + Display>(&mut self, r: &Result<T, E>) -> bool {
+    pub fn res<T: Debug, E: Debug + Display>(&mut self, r: &Result<T, E>) -> bool {
         match r {
-            Ok(_) => {
+            Ok(v) => {
                 self.ok.push(self.cur);
-                if self.keep_text {
-                    self.text.push_str("Ok; ");
-                }
+                // Debug rendering of the complete result, once, at top level
+                self.dbg("Ok", v);
                 true
             }
             Err(e) => {
@@ -297,7 +296,6 @@ pub fn eth2(s: &mut Sink, e: &Ethernet2Slice) {
     ether_payload(s, "eth.p", &e.payload());
     s.dbg("f", &(e.destination(), e.source(), e.ether_type(), e.fcs(), e.header_len()));
     s.dbg("hdr", &e.to_header());
-    s.dbg("dbg", e);
     let c = e.clone();
     if &c != e {
         s.flag("clone-not-equal", "Ethernet2Slice".into());
@@ -310,7 +308,6 @@ pub fn vlan(s: &mut Sink, v: &SingleVlanSlice) {
     ether_payload(s, "vlan.p", &v.payload());
     s.dbg("f", &(v.priority_code_point(), v.drop_eligible_indicator(), v.vlan_identifier(), v.ether_type(), v.header_len()));
     s.dbg("hdr", &v.to_header());
-    s.dbg("dbg", v);
 }
 pub fn macsec_header(s: &mut Sink, h: &MacsecHeaderSlice) {
     s.sl("macsec.header", h.slice());
@@ -344,7 +341,6 @@ pub fn macsec(s: &mut Sink, m: &MacsecSlice) {
         ether_payload(s, "macsec.ep", &e);
     }
     s.dbg("net", &m.next_ether_type());
-    s.dbg("dbg", m);
 }
 pub fn lax_macsec(s: &mut Sink, m: &LaxMacsecSlice) {
     macsec_header(s, &m.header);
@@ -359,7 +355,6 @@ pub fn lax_macsec(s: &mut Sink, m: &LaxMacsecSlice) {
         lax_ether_payload(s, "macsec.ep", &e);
     }
     s.dbg("net", &m.next_ether_type());
-    s.dbg("dbg", m);
 }
 pub fn sll(s: &mut Sink, l: &LinuxSllSlice) {
     s.sl("sll.slice", l.slice());
@@ -369,14 +364,12 @@ pub fn sll(s: &mut Sink, l: &LinuxSllSlice) {
     sll_payload(s, "sll.p", &l.payload());
     s.dbg("f", &(l.packet_type(), l.arp_hardware_type(), l.sender_address_valid_length(), l.sender_address_full(), l.protocol_type(), l.header_len()));
     s.dbg("hdr", &l.to_header());
-    s.dbg("dbg", l);
 }
 pub fn sll_header(s: &mut Sink, l: &LinuxSllHeaderSlice) {
     s.sl("sllh.slice", l.slice());
     s.sl("sllh.addr", l.sender_address());
     s.dbg("f", &(l.packet_type(), l.arp_hardware_type(), l.sender_address_valid_length(), l.sender_address_full(), l.protocol_type()));
     s.dbg("hdr", &l.to_header());
-    s.dbg("dbg", l);
 }
 pub fn arp(s: &mut Sink, a: &ArpPacketSlice) {
     s.sl("arp.slice", a.slice());
@@ -387,7 +380,6 @@ pub fn arp(s: &mut Sink, a: &ArpPacketSlice) {
     s.dbg("f", &(a.hw_addr_type(), a.proto_addr_type(), a.hw_addr_size(), a.proto_addr_size(), a.operation()));
     let p = a.to_packet();
     arp_packet(s, &p);
-    s.dbg("dbg", a);
 }
 pub fn arp_packet(s: &mut Sink, p: &ArpPacket) {
     s.dbg("arp.pkt", p);
@@ -472,28 +464,24 @@ pub fn ipv4(s: &mut Sink, i: &Ipv4Slice) {
     ipv4_exts(s, &i.extensions());
     ip_payload(s, "ipv4.p", i.payload());
     s.dbg("g", &(i.payload_ip_number(), i.is_payload_fragmented()));
-    s.dbg("dbg", i);
 }
 pub fn lax_ipv4(s: &mut Sink, i: &LaxIpv4Slice) {
     ipv4_header(s, &i.header());
     ipv4_exts(s, &i.extensions());
     lax_ip_payload(s, "ipv4.p", i.payload());
     s.dbg("g", &(i.payload_ip_number(), i.is_payload_fragmented()));
-    s.dbg("dbg", i);
 }
 pub fn ipv6(s: &mut Sink, i: &Ipv6Slice) {
     ipv6_header(s, &i.header());
     drive_ipv6_exts(s, "ipv6.exts", i.extensions());
     ip_payload(s, "ipv6.p", i.payload());
     s.dbg("g", &i.is_payload_fragmented());
-    s.dbg("dbg", i);
 }
 pub fn lax_ipv6(s: &mut Sink, i: &LaxIpv6Slice) {
     ipv6_header(s, &i.header());
     drive_ipv6_exts(s, "ipv6.exts", i.extensions());
     lax_ip_payload(s, "ipv6.p", i.payload());
     s.dbg("g", &i.is_payload_fragmented());
-    s.dbg("dbg", i);
 }
 pub fn ip_headers(s: &mut Sink, h: &IpHeaders) {
     s.dbg("iph", h);
@@ -559,7 +547,6 @@ pub fn udp(s: &mut Sink, u: &UdpSlice) {
     s.dbg("f", &(u.source_port(), u.destination_port(), u.length(), u.checksum(), u.header_len(), u.header_len_u16(), u.payload_len_source()));
     s.dbg("hdr", &u.to_header());
     s.owned("hdr.bytes", &u.to_header().to_bytes());
-    s.dbg("dbg", u);
 }
 pub fn tcp(s: &mut Sink, t: &TcpSlice) {
     s.sl("tcp.slice", t.slice());
@@ -575,7 +562,6 @@ pub fn tcp(s: &mut Sink, t: &TcpSlice) {
     s.dbg("hdr.f", &(h.header_len(), h.data_offset(), h.options.len()));
     s.owned("hdr.bytes", &h.to_bytes());
     s.dbg("csum", &(t.calc_checksum_ipv4([1, 2, 3, 4], [5, 6, 7, 8]), t.calc_checksum_ipv6([1; 16], [2; 16])));
-    s.dbg("dbg", t);
 }
 pub fn tcp_header(s: &mut Sink, t: &TcpHeaderSlice) {
     s.sl("tcph.slice", t.slice());
@@ -585,7 +571,6 @@ pub fn tcp_header(s: &mut Sink, t: &TcpHeaderSlice) {
     s.dbg("g", &(t.window_size(), t.checksum(), t.urgent_pointer()));
     drive_tcp_options(s, "tcph.opt", t.options_iterator());
     s.dbg("hdr", &t.to_header());
-    s.dbg("dbg", t);
 }
 pub fn icmpv4(s: &mut Sink, i: &Icmpv4Slice) {
     s.sl("icmp4.slice", i.slice());
@@ -597,7 +582,6 @@ pub fn icmpv4(s: &mut Sink, i: &Icmpv4Slice) {
     s.dbg("hdr", &h);
     s.dbg("hdr.len", &h.header_len());
     s.owned("hdr.bytes", &h.to_bytes());
-    s.dbg("dbg", i);
 }
 pub fn icmpv6(s: &mut Sink, i: &Icmpv6Slice) {
     s.sl("icmp6.slice", i.slice());
@@ -649,7 +633,6 @@ pub fn icmpv6(s: &mut Sink, i: &Icmpv6Slice) {
             s.disp("msg", &e);
         }
     }
-    s.dbg("dbg", i);
 }
 pub fn transport(s: &mut Sink, t: &TransportSlice) {
     match t {
@@ -718,7 +701,6 @@ pub fn sliced(s: &mut Sink, p: &SlicedPacket) {
         ether_payload(s, "vlan.ep", &v.payload());
     }
     s.dbg("vlan_ids", &p.vlan_ids());
-    s.dbg("dbg", p);
     if p.clone() != *p {
         s.flag("clone-not-equal", "SlicedPacket".into());
     }
@@ -768,7 +750,6 @@ pub fn lax_sliced(s: &mut Sink, p: &LaxSlicedPacket) {
         s.dbg("vlan", &v.to_header());
     }
     s.dbg("vlan_ids", &p.vlan_ids());
-    s.dbg("dbg", p);
     if p.clone() != *p {
         s.flag("clone-not-equal", "LaxSlicedPacket".into());
     }
@@ -795,7 +776,6 @@ pub fn lax_payload_slice(s: &mut Sink, p: &LaxPayloadSlice) {
 }
 
 pub fn headers(s: &mut Sink, p: &PacketHeaders) {
-    s.dbg("ph", p);
     payload_slice(s, &p.payload);
     s.dbg("vlan", &(p.vlan(), p.vlan_ids()));
     if let Some(NetHeaders::Arp(a)) = &p.net {
@@ -816,7 +796,6 @@ pub fn headers(s: &mut Sink, p: &PacketHeaders) {
     }
 }
 pub fn lax_headers(s: &mut Sink, p: &LaxPacketHeaders) {
-    s.dbg("lph", p);
     lax_payload_slice(s, &p.payload);
     s.dbg("vlan", &(p.vlan(), p.vlan_ids()));
     if let Some((e, l)) = &p.stop_err {
@@ -959,6 +938,7 @@ pub fn run_door(door: Door, b: &[u8], s: &mut Sink, case: &mut Case) {
             }
             s.enter(case, "LaxSlicedPacket::from_ether_type");
             let r = LaxSlicedPacket::from_ether_type(et, b);
+            s.dbg("value", &r);
             lax_sliced(s, &r);
             s.enter(case, "PacketHeaders::from_ether_type");
             let r = PacketHeaders::from_ether_type(et, b);
@@ -967,6 +947,7 @@ pub fn run_door(door: Door, b: &[u8], s: &mut Sink, case: &mut Case) {
             }
             s.enter(case, "LaxPacketHeaders::from_ether_type");
             let r = LaxPacketHeaders::from_ether_type(et, b);
+            s.dbg("value", &r);
             lax_headers(s, &r);
             match t {
                 0x8100 | 0x88A8 | 0x9100 => {
